@@ -504,6 +504,9 @@ def canonical_item_answers(ans):
             return 'expect %r is not a tuple' % (a['expect'],)
         if a['ok'] not in (True, False, 'partial'):
             return 'ok %r' % (a['ok'],)
+        g = a['grade_decimal']
+        if g != 1 and a['ok'] != (False if g == 0 else 'partial'):
+            return 'ok %r contradicts grade_decimal %r (an explicit ok is documented as ignored unless the credit is 1)' % (a['ok'], g)
     return None
 
 
@@ -514,6 +517,10 @@ def run_answers(ctx):
         ('string', lambda: S(answers='cat'), 1), ('dict', lambda: S(answers={'expect': 'cat', 'grade_decimal': 0.5, 'msg': 'm'}), 1),
         ('tuple_of_strings', lambda: S(answers=('cat', 'dog')), 2), ('tuple_mixed', lambda: S(answers=('cat', {'expect': 'dog', 'ok': 'partial'})), 2),
         ('expect_tuple', lambda: S(answers={'expect': ('cat', 'dog'), 'msg': 'm'}), 1),
+        ('explicit_ok_with_partial_credit', lambda: S(answers={'expect': 'cat', 'ok': True, 'grade_decimal': 0.5}), 1),
+        ('explicit_ok_with_zero_credit', lambda: S(answers=({'expect': 'cat', 'ok': 'partial', 'grade_decimal': 0}, {'expect': 'dog', 'ok': False, 'grade_decimal': 0.25})), 2),
+        ('explicit_ok_with_full_credit', lambda: S(answers={'expect': 'cat', 'ok': 'partial', 'grade_decimal': 1}), 1),
+        ('explicit_ok_in_list_item', lambda: M.SingleListGrader(answers=[{'expect': 'a', 'ok': True, 'grade_decimal': 0.3}, 'b'], subgrader=S()), 1),
         ('formula_string', lambda: M.FormulaGrader(answers='x', variables=['x']), 1),
         ('formula_comparer_dict', lambda: M.FormulaGrader(answers={'comparer': M.equality_comparer, 'comparer_params': ['x']}, variables=['x']), 1),
         ('formula_expect_comparer', lambda: M.FormulaGrader(answers={'expect': {'comparer': M.equality_comparer, 'comparer_params': ['x']}, 'msg': 'm'}, variables=['x']), 1),
